@@ -36,7 +36,7 @@ ASSUMPTIONS = [
 AUX_NAME = "event histories (sequence of op kinds incl. fault flavours, without ids)"
 REQUIRED_PROBES = ["inode_number_reused", "reattach_same_device", "raw_sense_execute", "cmd_after_replug", "close_fails", "replug_and_close_fails", "unplug_detected", "with_exit_exception", "detect_off_kept_handle", "iscsi_disconnect_once",
                    "symlink_path", "via_init_device", "link_retargeted", "reopen_refused_once", "vanished_mid_call",
-                   "second_user", "facade_attached_midway", "facade_attach_failed", "changed_before_with"]
+                   "second_user", "replug_in_flight", "iscsi_dropped_after_close", "facade_attached_midway", "facade_attach_failed", "changed_before_with"]
 
 PATH = "/dev/sg3"
 PATH2 = "/dev/sg4"
@@ -59,6 +59,8 @@ def gen_ops(rng, n):
             r2 = rng.random()
             if r2 < 0.12:
                 op["open_errno"] = rng.choice([13, 13, 16, 24])     # the re-open is refused once (EACCES while udev fixes permissions, EBUSY, EMFILE)
+                if rng.random() < 0.4:
+                    op["open_refusals"] = rng.choice([2, 3, 5])      # ... or several times in a row
                 pending = True
             elif r2 < 0.2:
                 op["vanish_after_open"] = True                       # the node is unplugged again between the library's open() and its next system call
@@ -92,6 +94,8 @@ def gen_ops(rng, n):
             op = {"op": "reattach_same"}       # scsi(dev) with the device the facade already holds (re-runs type detection)
         if op["op"] == "execute" and rng.random() < 0.08:
             op["ioctl_errno"] = rng.choice([19, 6, 5])       # the binding's ioctl fails (ENODEV / ENXIO / EIO)
+            if rng.random() < 0.4:
+                op["replug_in_flight"] = True                 # ... because the device was pulled and came back while the command was in flight
         r3 = rng.random()
         if r3 < 0.04:
             # the application builds a facade on the device it already holds; the attach INQUIRY may meet a CHECK CONDITION
@@ -184,7 +188,9 @@ def execute(prog):
         elif op.get("cc"):
             WORLD.arm({"kind": "status", "byte": 2, "sense": S.fixed(6, 0x29, 0).hex()})
         if op.get("open_errno") and sgio_mode:
-            WORLD.arm({"kind": "open_fails", "errno": op["open_errno"]})
+            WORLD.arm({"kind": "open_fails", "errno": op["open_errno"], "count": op.get("open_refusals", 1)})
+        if op.get("replug_in_flight") and op.get("ioctl_errno") and sgio_mode and cfg["detect"]:
+            WORLD.flags["replug_when_ioctl_fails"] = True
         if op.get("vanish_after_open") and sgio_mode:
             WORLD.arm({"kind": "after_open"})
         fired0 = dict(WORLD.fired)
@@ -201,6 +207,16 @@ def execute(prog):
                 kind, val = worlds.outcome_of(lambda: dev.execute(cmd))
         evs = WORLD.events[mark_ev:]
         if not sgio_mode:
+            return kind, val
+        WORLD.flags.pop("replug_when_ioctl_fails", None)
+        ioctl_failed = WORLD.fired.get("ioctl_error", 0) > fired0.get("ioctl_error", 0)
+        if ioctl_failed and kind == "ok":
+            V.append(dict(oracle="C15.ioctl-error-swallowed", where="detect=%d" % cfg["detect"], detail="errno=%s" % op.get("ioctl_errno"),
+                          expected="the OS error of the failed ioctl reaches the caller (the command was not executed)", actual="execute returned normally"))
+        if ioctl_failed and sgio_mode and WORLD.lookup(DEV) is not node:
+            st["post_replug"] = True          # the node was replaced while the command was in flight
+            inos.append(WORLD.lookup(DEV).ino)
+            WORLD.probe("replug_in_flight")
             return kind, val
         open_failed = WORLD.fired.get("open_fails", 0) > fired0.get("open_fails", 0)
         vanished = WORLD.fired.get("after_open", 0) > fired0.get("after_open", 0)
@@ -510,6 +526,21 @@ def execute(prog):
                                   expected="handle #%d released exactly once at OS level after close/with" % h.hid,
                                   actual="%d releases, %d close calls" % (h.os_releases, h.close_calls)))
         else:
+            # a second, short-lived device object: opened, closed, dropped - its session was released by close(), and only then
+            import gc
+            n0 = len(WORLD.iscsi_contexts)
+            k7, d7 = worlds.outcome_of(lambda: worlds.open_device("iscsi", lu))
+            if k7 == "ok":
+                worlds.outcome_of(lambda: d7.close())
+                del d7
+                gc.collect()
+                extra = [c for c in WORLD.iscsi_contexts[n0:] if c.disconnects != 1]
+                if extra:
+                    V.append(dict(oracle="C15.iscsi-disconnect", where="dropped-after-close", detail="n=%d" % extra[0].disconnects,
+                                  expected="one disconnect for a device that was closed and then dropped", actual="%d disconnects" % extra[0].disconnects))
+                else:
+                    WORLD.probe("iscsi_dropped_after_close")
+            del WORLD.iscsi_contexts[n0:]
             n = sum(c.disconnects for c in WORLD.iscsi_contexts)
             closes = sum(1 for o in prog["ops"] if o["op"] == "close") + (2 if mode == "nested_with" else 1 if (mode != "plain" or cfg["close_at_end"]) else 0)
             if n < 1 or (closes == 1 and n != 1):
